@@ -20,7 +20,7 @@ def _load(pid):
 
 def _replay_path(pid, key):
     h = hashlib.sha1(key.encode("utf-8", "replace")).hexdigest()[:12]
-    return os.path.join(evidence.REPLAY_DIR, f"{pid}-{h}.json")
+    return os.path.join(evidence.REPLAY_DIR, f"{pid}-{h}{'-OO' if sys.flags.optimize >= 2 else ''}.json")
 
 
 def main(argv=None):
@@ -28,6 +28,7 @@ def main(argv=None):
     ap.add_argument("property")
     ap.add_argument("--tier", choices=["quick", "thorough"], default=os.environ.get("VERIF_TIER", "quick"))
     ap.add_argument("--replay")
+    ap.add_argument("--optpass", action="store_true", help="internal: this process IS the optimised-interpreter pass")
     args = ap.parse_args(argv)
     pid = args.property.upper()
     seed = int(os.environ.get("VERIF_SEED", "0") or 0)
@@ -35,7 +36,7 @@ def main(argv=None):
         mod = _load(pid)
         if args.replay:
             return _do_replay(mod, pid, args.replay)
-        return _do_check(mod, pid, args.tier, seed)
+        return _do_check(mod, pid, args.tier, seed, args.optpass)
     except loader.HarnessError as e:
         print(f"HARNESS-ERROR property={pid} {e}")
         traceback.print_exc()
@@ -55,7 +56,7 @@ def _reproduces_in_fresh_process(pid, path):
     import subprocess
 
     p = subprocess.run(
-        [sys.executable, "-B", "-m", "mc.cli", pid, "--replay", path],
+        [sys.executable, *_opt_flags(), "-B", "-m", "mc.cli", pid, "--replay", path],
         cwd=evidence.ROOT, capture_output=True, text=True, timeout=600,
     )
     if p.returncode not in (0, 1):
@@ -63,9 +64,47 @@ def _reproduces_in_fresh_process(pid, path):
     return p.returncode == 1
 
 
+def _opt_flags():
+    return ["-OO"] if sys.flags.optimize >= 2 else ["-O"] if sys.flags.optimize == 1 else []
+
+
+def _start_optpass(pid):
+    """The interpreter's optimisation level is an environment answer with two values the code under test can observe
+    (assert statements and docstrings vanish under -OO).  The whole quick-tier exploration is repeated in a -OO
+    interpreter, concurrently with the main pass; its verdicts are merged by _finish_optpass."""
+    import subprocess
+
+    if os.environ.get("VERIF_NO_OPTPASS") or sys.flags.optimize:
+        return None
+    env = dict(os.environ, VERIF_OPTPASS="1")
+    return subprocess.Popen(
+        [sys.executable, "-OO", "-B", "-m", "mc.cli", pid, "--tier", "quick", "--optpass"],
+        cwd=evidence.ROOT, env=env, stdout=subprocess.PIPE, stderr=subprocess.STDOUT, text=True,
+    )
+
+
+def _finish_optpass(proc, pid, main_keys):
+    """-> (summary dict for the evidence, [(key, what, replay path)] of violations only the -OO pass saw)"""
+    out, _ = proc.communicate(timeout=4 * 3600)
+    result = None
+    for line in out.splitlines():
+        if line.startswith("OPTPASS-RESULT "):
+            result = json.loads(line[len("OPTPASS-RESULT "):])
+    if proc.returncode not in (0, 1) or result is None:
+        raise loader.HarnessError(f"the -OO pass failed with exit {proc.returncode}: {out[-1500:]}")
+    extra = [(v["key"], v["what"], v["replay"]) for v in result["violations"] if v["key"] not in main_keys]
+    summary = {k: result[k] for k in ("interpreter_flags", "tier", "wall_seconds", "evaluations", "violations_total", "known_findings_seen")}
+    summary["violations_only_under_OO"] = len(extra)
+    return summary, extra
+
+
 def _do_replay(mod, pid, path):
     with open(path) as f:
         doc = json.load(f)
+    flags = doc.get("python_flags") or []
+    if "-OO" in flags and sys.flags.optimize < 2:
+        # recorded by the optimised-interpreter pass: replay it in the same kind of interpreter
+        os.execv(sys.executable, [sys.executable, "-OO", "-B", "-m", "mc.cli", pid, "--replay", path])
     what = mod.replay(evidence.unjson(doc["case"]))
     if what:
         print(f"replay reproduces: property={pid} key={doc.get('key')}\n  {what}")
@@ -75,8 +114,17 @@ def _do_replay(mod, pid, path):
     return 0
 
 
-def _do_check(mod, pid, tier, seed):
+def _do_check(mod, pid, tier, seed, optpass=False):
     t0 = time.time()
+    child = None if optpass else _start_optpass(pid)
+    try:
+        return _do_check_inner(mod, pid, tier, seed, optpass, child, t0)
+    finally:
+        if child is not None and child.poll() is None:
+            child.kill()
+
+
+def _do_check_inner(mod, pid, tier, seed, optpass, child, t0):
     res = mod.run(tier, seed)
     coverage = res["coverage"]
     violations = res.get("violations", [])
@@ -109,7 +157,7 @@ def _do_check(mod, pid, tier, seed):
         for cand in [v["case"]] + list(v.get("alt_cases", [])):
             case = evidence.jsonable(cand)
             with open(path, "w") as f:
-                json.dump({"property": pid, "key": v["key"], "what": v["what"], "case": case}, f, indent=1)
+                json.dump({"property": pid, "key": v["key"], "what": v["what"], "python_flags": _opt_flags(), "case": case}, f, indent=1)
             if _reproduces_in_fresh_process(pid, path):
                 break
         else:
@@ -131,6 +179,16 @@ def _do_check(mod, pid, tier, seed):
     for v in unconfirmed:
         print(f"  unconfirmed (did not reproduce standalone, not counted): {v['key']}")
     unknown = [v for v in unknown if v not in unconfirmed]
+    if optpass:
+        # this process is the -OO pass: hand the verdicts to the parent, which prints and records them
+        doc = {
+            "interpreter_flags": "-OO", "tier": tier, "wall_seconds": round(time.time() - t0, 1),
+            "evaluations": coverage.get("evaluations"), "violations_total": len(unknown),
+            "known_findings_seen": [k for k, _ in seen_known],
+            "violations": [{"key": v["key"], "what": v["what"], "replay": path} for v, path in reported],
+        }
+        print("OPTPASS-RESULT " + json.dumps(doc))
+        return 1 if unknown else 0
     for key, what in seen_known:
         print(f"KNOWN-FINDING: property={pid} {key}: {what}")
     for v, path in reported:
@@ -140,13 +198,24 @@ def _do_check(mod, pid, tier, seed):
         print(f"  (+{len(unknown) - len(reported)} further distinct violations not written out)")
 
     coverage = dict(coverage)
+    n_total = len(unknown)
+    if child is not None:
+        summary_oo, extra = _finish_optpass(child, pid, {v["key"] for v in unknown})
+        coverage["optimised_interpreter_pass"] = summary_oo
+        for key, what, path in extra:
+            print(f"  {pid} violated (only in an interpreter started with -OO): {what}")
+            print(f"VIOLATION property={pid} replay={path}")
+        n_total += len(extra)
+        for k in summary_oo["known_findings_seen"]:
+            if k not in {kk for kk, _ in seen_known}:
+                print(f"KNOWN-FINDING: property={pid} {k}: (seen by the -OO pass only) {known.get(k, '')}")
     coverage["known_findings_seen"] = [k for k, _ in seen_known]
     coverage["violation_keys"] = [v["key"] for v in unknown[:MAX_REPORTED]]
     wall = time.time() - t0
-    evidence.write(pid, tier, seed, mod.LEVEL, coverage, wall, len(unknown), getattr(mod, "ASSUMPTIONS", []))
+    evidence.write(pid, tier, seed, mod.LEVEL, coverage, wall, n_total, getattr(mod, "ASSUMPTIONS", []))
     summary = {k: v for k, v in coverage.items() if isinstance(v, (int, float, bool, str)) and k != "rule"}
-    print(f"{pid} tier={tier} seed={seed} wall={wall:.1f}s violations={len(unknown)} known={len(seen_known)} {summary}")
-    return 1 if unknown else 0
+    print(f"{pid} tier={tier} seed={seed} wall={wall:.1f}s violations={n_total} known={len(seen_known)} {summary}")
+    return 1 if n_total else 0
 
 
 if __name__ == "__main__":
